@@ -322,7 +322,7 @@ func runPackage(u *vk.Unit, p *reg.Package, meta Meta, pkg string) {
 			if meta.Replay && int(class) != meta.OnlyClass {
 				continue
 			}
-			bld := &valgen.Builder{Class: class, Variants: p.Variants, TimeFormat: meta.TimeFormat, Hook: statusHook(meta, m.Name), MaxDepth: 4}
+			bld := &valgen.Builder{Class: class, Variants: p.Variants, Types: p.Types, TimeFormat: meta.TimeFormat, Hook: statusHook(meta, m.Name), MaxDepth: 4}
 			type built struct {
 				args []reflect.Value
 				resp reflect.Value
